@@ -297,8 +297,8 @@ def main():
                         oracle_sig='expression-trace-differs')
     # 4. built-in functions return their documented results
     check_builtins(chk, stats)
-    # two scripts at the same time (harness/concurrent.py): each must compute what it computes alone
-    import concurrent as _cc
+    # two scripts at the same time (harness/twoscripts.py): each must compute what it computes alone
+    import twoscripts as _cc
     _problems, _n = _cc.isolation_cases(chk.rng, 25 if chk.thorough else 3)
     stats['concurrent_pairs'] = _n
     chk.count(_n)
